@@ -155,6 +155,12 @@ func execCase(c hx.Case, res *hx.Result, mu *sync.Mutex) {
 	nontrivial := false
 
 	atoi := func(s string) int { v, _ := strconv.Atoi(s); return v }
+	// the two other implementations only feed the cross comparison: their panics are reported, not printed
+	safe := func(i int, name string, f func()) {
+		if k := hx.Try(f); k != "" {
+			bad(i, "%s panicked (%s) on the same history", name, k)
+		}
+	}
 
 	for i, op := range c.Ops {
 		f := strings.Fields(op)
@@ -164,8 +170,8 @@ func execCase(c hx.Case, res *hx.Result, mu *sync.Mutex) {
 			case f[0] == "union" && len(f) == 3:
 				p, q := atoi(f[1]), atoi(f[2])
 				u.Union(p, q)
-				for _, w := range others {
-					w.Union(p, q)
+				for k, w := range others {
+					safe(i, otherNames[k], func() { w.Union(p, q) })
 				}
 				out = "ok"
 				if !o.valid(p) || !o.valid(q) {
@@ -213,7 +219,11 @@ func execCase(c hx.Case, res *hx.Result, mu *sync.Mutex) {
 					bad(i, "find %d returned %d, which no chain of unions links to %d", p, r, p)
 				}
 				// same representative iff connected, against every element
-				for x := 0; x < n; x++ {
+				step := 1
+				if n > 64 { // long chains: a sample keeps the case linear
+					step = n / 16
+				}
+				for x := 0; x < n; x += step {
 					rx, okx := u.Find(x)
 					if !okx || (rx == r) != cls[x] {
 						bad(i, "find %d = %d and find %d = (%d,%v), but reachable(%d,%d) = %v", p, r, x, rx, okx, p, x, cls[x])
@@ -221,9 +231,11 @@ func execCase(c hx.Case, res *hx.Result, mu *sync.Mutex) {
 					}
 				}
 				for k, w := range others {
-					if _, okw := w.Find(p); !okw {
-						bad(i, "find %d: %s says not found, %s found %d", p, otherNames[k], comp, r)
-					}
+					safe(i, otherNames[k], func() {
+						if _, okw := w.Find(p); !okw {
+							bad(i, "find %d: %s says not found, %s found %d", p, otherNames[k], comp, r)
+						}
+					})
 				}
 			case f[0] == "connected" && len(f) == 3:
 				p, q := atoi(f[1]), atoi(f[2])
@@ -239,9 +251,11 @@ func execCase(c hx.Case, res *hx.Result, mu *sync.Mutex) {
 					bad(i, "connected %d %d = %v, reachability over the union pairs says %v", p, q, got, want)
 				}
 				for k, w := range others {
-					if g := w.IsConnected(p, q); g != got {
-						bad(i, "connected %d %d: %s says %v, %s says %v", p, q, comp, got, otherNames[k], g)
-					}
+					safe(i, otherNames[k], func() {
+						if g := w.IsConnected(p, q); g != got {
+							bad(i, "connected %d %d: %s says %v, %s says %v", p, q, comp, got, otherNames[k], g)
+						}
+					})
 				}
 			case f[0] == "count" && len(f) == 1:
 				got := u.Count()
@@ -283,5 +297,245 @@ func execCase(c hx.Case, res *hx.Result, mu *sync.Mutex) {
 	res.Nontrivial = nontrivial
 	for t := range tags {
 		res.Tags = append(res.Tags, t)
+	}
+}
+
+// ---------------------------------------------------------------- generators
+
+// arg draws an argument: mostly valid, otherwise anywhere in [-2, n+1].
+func arg(r *hx.Rand, n, validPct int) int {
+	if n > 0 && r.Intn(100) < validPct {
+		return r.Intn(n)
+	}
+	return r.Range(-2, n+1)
+}
+
+func queryOp(r *hx.Rand, n, validPct int) string {
+	switch x := r.Intn(100); {
+	case x < 40:
+		return fmt.Sprintf("connected %d %d", arg(r, n, validPct), arg(r, n, validPct))
+	case x < 75:
+		return fmt.Sprintf("find %d", arg(r, n, validPct))
+	case x < 90:
+		return "count"
+	default:
+		return "dump"
+	}
+}
+
+// genMixed interleaves unions and queries; unionPct is the share of unions.
+func genMixed(r *hx.Rand, n, length, unionPct, validPct int) []string {
+	var ops []string
+	for len(ops) < length {
+		if r.Intn(100) < unionPct {
+			ops = append(ops, fmt.Sprintf("union %d %d", arg(r, n, validPct), arg(r, n, validPct)))
+		} else {
+			ops = append(ops, queryOp(r, n, validPct))
+		}
+	}
+	return ops
+}
+
+// sweep appends the queries that expose the whole state: dump, count, find of every element and of the
+// out-of-range neighbours, connected for a band of pairs.
+func sweep(ops []string, n int) []string {
+	ops = append(ops, "dump", "count")
+	for p := -1; p <= n; p++ {
+		ops = append(ops, fmt.Sprintf("find %d", p))
+	}
+	for p := 0; p < n; p++ {
+		for q := p + 1; q < n && q <= p+3; q++ {
+			ops = append(ops, fmt.Sprintf("connected %d %d", p, q))
+		}
+	}
+	if n > 0 {
+		ops = append(ops, fmt.Sprintf("connected 0 %d", n-1), fmt.Sprintf("connected %d 0", n-1),
+			fmt.Sprintf("connected 0 %d", n), "connected -1 0", "connected 0 0")
+	}
+	return ops
+}
+
+// shapes: histories that build the extreme forests.
+func genShape(r *hx.Rand, n int, shape string) []string {
+	var ops []string
+	u := func(p, q int) { ops = append(ops, fmt.Sprintf("union %d %d", p, q)) }
+	switch shape {
+	case "chain-up": // quick-union: the path 0 -> 1 -> ... -> n-1 (depth n-1: Find's loop bound is met exactly)
+		for i := 1; i < n; i++ {
+			u(0, i)
+		}
+	case "chain-down":
+		for i := n - 2; i >= 0; i-- {
+			u(n-1, i)
+		}
+	case "chain-adjacent":
+		for i := 0; i+1 < n; i++ {
+			u(i, i+1)
+		}
+	case "chain-adjacent-rev":
+		for i := n - 1; i > 0; i-- {
+			u(i, i-1)
+		}
+	case "star":
+		for i := 1; i < n; i++ {
+			u(i, 0)
+		}
+	case "pairing": // binomial-tree shape for the weighted variant: equal sizes meet at every level
+		for step := 1; step < n; step *= 2 {
+			for i := 0; i+step < n; i += 2 * step {
+				if r.Bool() {
+					u(i, i+step)
+				} else {
+					u(i+step, i)
+				}
+			}
+		}
+	case "two-halves": // two chains, then one union joining the two deep trees, then every union again
+		h := n / 2
+		for i := 1; i < h; i++ {
+			u(0, i)
+		}
+		for i := h + 1; i < n; i++ {
+			u(h, i)
+		}
+		ops = append(ops, "dump")
+		if n >= 2 {
+			u(r.Intn(h+1), h+r.Intn(n-h))
+		}
+		for i := 1; i < n; i++ {
+			u(i, i-1)
+		}
+	}
+	if r.Chance(1, 3) { // sprinkle invalid calls: they must change nothing
+		k := r.Intn(len(ops) + 1)
+		inv := []string{fmt.Sprintf("union %d %d", -1, r.Intn(n+1)), fmt.Sprintf("union %d %d", r.Intn(n+1), n), fmt.Sprintf("union %d %d", n+1, -2)}
+		ops = append(ops[:k:k], append(inv, ops[k:]...)...)
+	}
+	return sweep(ops, n)
+}
+
+var shapes = []string{"chain-up", "chain-down", "chain-adjacent", "chain-adjacent-rev", "star", "pairing", "two-halves"}
+
+// all3 runs one op list on the three implementations.
+func all3(run *hx.Run, n int, ops []string) {
+	for _, comp := range comps {
+		run.Do(comp, hx.Case{Header: fmt.Sprintf("comp=%s n=%d", comp, n), Ops: ops}, Exec)
+	}
+}
+
+// sequences enumerates every sequence over alpha of exactly the given length.
+func sequences(alpha []string, length int, f func([]string)) {
+	idx := make([]int, length)
+	for {
+		ops := make([]string, length)
+		for i, k := range idx {
+			ops[i] = alpha[k]
+		}
+		f(ops)
+		i := length - 1
+		for i >= 0 {
+			idx[i]++
+			if idx[i] < len(alpha) {
+				break
+			}
+			idx[i] = 0
+			i--
+		}
+		if i < 0 {
+			return
+		}
+	}
+}
+
+func unionAlphabet(lo, hi int, distinct bool) []string {
+	var a []string
+	for p := lo; p <= hi; p++ {
+		for q := lo; q <= hi; q++ {
+			if distinct && p == q {
+				continue
+			}
+			a = append(a, fmt.Sprintf("union %d %d", p, q))
+		}
+	}
+	return a
+}
+
+// finalQueries exposes the state after an enumerated history (short: these cases are many).
+func finalQueries(ops []string, n int) []string {
+	ops = append(ops, "dump", "count")
+	for p := 0; p < n; p++ {
+		ops = append(ops, fmt.Sprintf("find %d", p))
+	}
+	for p := 0; p < n; p++ {
+		for q := p + 1; q < n; q++ {
+			ops = append(ops, fmt.Sprintf("connected %d %d", p, q))
+		}
+	}
+	return ops
+}
+
+func Main(run *hx.Run) {
+	run.Stats.Rule = Rule
+	for _, f := range hx.CorpusFiles("C17") {
+		cs, _ := hx.ReadReplay(f)
+		for _, c := range cs {
+			run.Do(hx.HeaderGet(c.Header, "comp"), c, Exec)
+		}
+	}
+
+	// 1. small n, dense unions, arguments mostly valid
+	r := run.R.Fork("dense")
+	for k, m := 0, run.Scale(250); k < m; k++ {
+		n := r.Range(0, 8)
+		all3(run, n, genMixed(r, n, r.Range(4, 40), 55, 85))
+	}
+	// 2. arguments anywhere in [-2, n+1]
+	r = run.R.Fork("invalid")
+	for k, m := 0, run.Scale(120); k < m; k++ {
+		n := r.Range(0, 6)
+		all3(run, n, genMixed(r, n, r.Range(4, 30), 50, 0))
+	}
+	// 3. larger n: a union phase that joins most classes, then queries, then mixed
+	r = run.R.Fork("random")
+	for k, m := 0, run.Scale(120); k < m; k++ {
+		n := r.Range(9, 64)
+		ops := genMixed(r, n, r.Range(n/2, 2*n), 90, 95)
+		ops = append(ops, genMixed(r, n, r.Range(5, 40), 30, 90)...)
+		if r.Chance(1, 3) {
+			ops = sweep(ops, n)
+		}
+		all3(run, n, ops)
+	}
+	// 4. extreme forests
+	r = run.R.Fork("shapes")
+	for k, m := 0, run.Scale(40); k < m; k++ {
+		n := r.Range(1, 64)
+		if r.Chance(1, 2) {
+			n = r.Range(1, 9)
+		}
+		all3(run, n, genShape(r, n, hx.Pick(r, shapes)))
+	}
+
+	if run.Thorough() {
+		// every sequence of <= 5 unions, followed by the queries that expose the whole state
+		exh := func(n int, alpha []string, maxLen int) {
+			for length := 0; length <= maxLen; length++ {
+				sequences(alpha, length, func(ops []string) { all3(run, n, finalQueries(ops, n)) })
+			}
+		}
+		exh(1, unionAlphabet(-1, 1, false), 4) // n=1, arguments -1..1 (valid and invalid)
+		exh(2, unionAlphabet(-1, 2, false), 4) // n=2, arguments -1..2 (valid and invalid), 16 calls
+		exh(3, unionAlphabet(0, 2, false), 5)  // n=3, all 9 valid calls
+		exh(4, unionAlphabet(0, 3, true), 5)   // n=4, the 12 calls with p != q
+		exh(5, unionAlphabet(0, 4, true), 3)   // n=5, 20 calls
+		run.Stats.Extra["exhaustive_part"] = "on each of the three implementations: every sequence of <=4 Union calls with arguments in [-1,n] for n=1,2; " +
+			"every sequence of <=5 Union calls for n=3 (all 9 argument pairs) and n=4 (the 12 pairs p!=q); <=3 calls for n=5; " +
+			"each followed by dump, count, find of every element and connected of every pair"
+		// long chains: the deepest tree the fuel bound must accommodate
+		for _, n := range []int{128, 512, 2048} {
+			for _, shape := range []string{"chain-up", "chain-adjacent", "pairing"} {
+				all3(run, n, genShape(r, n, shape))
+			}
+		}
 	}
 }
